@@ -43,6 +43,10 @@ struct Agent {
 	}
 };
 
+// The x86-64 SysV va_list, written through its documented layout (g++ treats __va_list_tag as opaque, clang exposes the members)
+struct SysVVaList { unsigned gp_offset, fp_offset; void *overflow_arg_area; void *reg_save_area; };
+static_assert(sizeof(va_list) == sizeof(SysVVaList), "x86-64 SysV va_list expected");
+inline void make_va_list(va_list ap, void *area) { SysVVaList raw{48, 304, area, nullptr}; memcpy((void *)&ap[0], &raw, sizeof raw); }
 char *exact(Ctx &c, const std::string &s, bool terminated) {
 	char *p = (char *)malloc(s.size() + (terminated ? 1 : 0));
 	c.arena.push_back({p, nullptr});
@@ -68,7 +72,7 @@ void run_printf(Ctx &c, std::string in, unsigned variant) {
 	uint64_t *area = (uint64_t *)malloc(nslots * 8); c.arena.push_back({area, nullptr});
 	for(size_t i = 0; i < nslots; i++) area[i] = variant == 0 ? (uint64_t)(uintptr_t)strbuf : (uint64_t)(uintptr_t)(strbuf + 4);   // "abc" / "" (both also aligned, terminated wide strings: %ls reads them as wchar_t)
 	frg::va_struct vs;
-	vs.args[0].gp_offset = 48; vs.args[0].fp_offset = 304; vs.args[0].overflow_arg_area = area; vs.args[0].reg_save_area = nullptr;
+	make_va_list(vs.args, area);
 	size_t nargs = nslots + 10;
 	frg::arg *arg_list = (frg::arg *)malloc(sizeof(frg::arg) * nargs); c.arena.push_back({arg_list, nullptr});
 	for(size_t i = 0; i < nargs; i++) arg_list[i].p = (void *)strbuf;
